@@ -241,9 +241,12 @@ class Dkg:
         self.ok = True
         self.tag = tag
 
-    def part1(self):
+    def part1(self, same_tape=()):
+        """same_tape: identifiers that all use one and the same random tape (cloned machine / bad RNG)"""
+        shared = self.sess.tape(128 * self.t + 512)
         for i in self.ids:
-            r = self.sess.call("%s1 %s id=%s n=%d t=%d tape=%s" % (self.p, self.suite, i, self.n, self.t, self.sess.tape(128 * self.t + 512)), self.gate, self.p + "1")
+            tp = shared if i in same_tape else self.sess.tape(128 * self.t + 512)
+            r = self.sess.call("%s1 %s id=%s n=%d t=%d tape=%s" % (self.p, self.suite, i, self.n, self.t, tp), self.gate, self.p + "1")
             if not r.ok:
                 self.ok = False
                 self.err = r
@@ -273,8 +276,8 @@ class Dkg:
             self.kp[i], self.pkp[i] = r["kp"], r["pkp"]
         return self
 
-    def run(self):
-        self.part1()
+    def run(self, same_tape=()):
+        self.part1(same_tape)
         if self.ok:
             self.part2()
         if self.ok:
@@ -315,3 +318,22 @@ def order_stream(sess, suite, count=40):
         sess.oracle(r.ok and r["v"] == ("lt" if a < b else "gt"), "identifier order is not the numeric order of the scalars (%s)" % r.raw, [req])
         sess.case("idcmp|%s|%d|%d" % (suite, a, b))
     sess.count("idcmp:" + suite)
+
+
+def evalpoly_stream(sess, suite, count=12):
+    """Horner evaluation on coefficient vectors with zeros in every position, ones, q-1 (vs. independent arithmetic)"""
+    rng = sess.rng
+    fld = Fld(suite)
+    for _ in range(count):
+        t = rng.randrange(1, 7)
+        cs = [fld.rand(rng) for _ in range(t)]
+        for pos in range(t):
+            if rng.random() < 0.4:
+                cs[pos] = rng.choice([0, 0, 1, fld.q - 1])
+        x = rng.choice([1, 2, fld.q - 1, fld.rand(rng)])
+        req = "evalpoly %s x=%s coeffs=%s" % (suite, fld.enc(x), ",".join(fld.enc(c) for c in cs))
+        r = sess.call(req, EXACT, "evalpoly")
+        want = sum(c * pow(x, k, fld.q) for k, c in enumerate(cs)) % fld.q
+        sess.oracle(r.ok and fld.dec(r["v"]) == want, "polynomial evaluation is wrong on coefficients %s" % ["0" if c == 0 else "x" for c in cs], [req])
+        sess.case("evalpoly|" + req)
+    sess.count("evalpoly:" + suite)
